@@ -87,12 +87,13 @@ def cmdUParse (j : Json) : R Json := do
   pure (obj [("model", putOptUnits (parse cs)), ("ref", putOptUnits (refParse cs)),
     ("lex", Json.bool (rawTop cs).isSome)])
 
-/-- {"cmd":"uprint","units":..,"frac":bool,"defs":[..]} → printed string (the `unit` property),
+/-- {"cmd":"uprint","units":..,"frac":bool,"defs":[..] | "reqs":[..]} → printed string (the
+    `unit` property) under the definitions given or left by the define/clear history `reqs`,
     what the model parser reads back from it -/
 def cmdUPrint (j : Json) : R Json := do
   let u ← getUnits (← field j "units")
   let frac ← (← field j "frac").getBool?
-  let defs ← getDefs (fieldD j "defs" (Json.arr #[]))
+  let defs ← getDefsOrReqs j
   if !smallDen u then throw "exponent denominator > 10"
   let s := unitProp defs frac u
   let back := if s.isEmpty then some [] else parse s
